@@ -245,6 +245,21 @@ Proof.
     rewrite Hin. lia.
 Qed.
 
+(* the sender's choice nonce_explicit = epoch || sequence_number is one instance of the general
+   receive-side form; a receiver must use the explicit part carried in the record *)
+Lemma nonce_aes_is_rx iv e s : nonce_aes iv e s = nonce_aes_rx iv (nonce_explicit e s).
+Proof. reflexivity. Qed.
+
+(* under one write IV the nonce determines the explicit part (so distinct explicit values give
+   distinct nonces whatever scheme the peer uses to pick them) *)
+Theorem nonce_aes_rx_injective iv x x' : nonce_aes_rx iv x = nonce_aes_rx iv x' -> x = x'.
+Proof. unfold nonce_aes_rx. apply app_inv_head. Qed.
+
+(* any padding length that completes a block is well-formed for the receiver *)
+Theorem cbc_plaintext_pad_length content mac padlen :
+  len (cbc_plaintext_pad content mac padlen) = len content + len mac + padlen + 1.
+Proof. unfold cbc_plaintext_pad. rewrite !len_app. unfold len. rewrite repeat_length. lia. Qed.
+
 (* ---------- DTLS 1.3 sequence-number encryption ---------- *)
 
 Lemma lxor_byte a b : a < 256 -> b < 256 -> N.lxor a b < 256.
